@@ -216,6 +216,9 @@ func main() {
 			e.add("replay", c)
 		}
 		e.flush()
+		if meta.Samples == nil {
+			meta.Samples = []interface{}{}
+		}
 		meta.Write(o.Out)
 		return
 	}
@@ -251,6 +254,9 @@ func main() {
 		e.add("random", g.aclCase(o.Thorough()))
 	}
 	e.flush()
+	if meta.Samples == nil {
+		meta.Samples = []interface{}{}
+	}
 	if err := meta.Write(o.Out); err != nil {
 		die("meta: %v", err)
 	}
